@@ -44,6 +44,12 @@ def rand_field(rng, inner):
         return ("arr", rng.randrange(2, 5), ("int", rng.choice(INTK)))
     if r < 0.87:
         return ("arr", rng.randrange(2, 4), ("ptr",))
+    if r < 0.93:
+        # arrays of rank two (and, rarely, three) of any integer kind: whole-object transfer in both directions
+        inner = ("arr", rng.randrange(2, 4), ("int", rng.choice(INTK)))
+        if rng.random() < 0.2:
+            inner = ("arr", 2, inner)
+        return ("arr", rng.randrange(2, 4), inner)
     if inner:
         return rng.choice(inner)
     return rand_leaf(rng)
@@ -65,6 +71,10 @@ def gen_structs(rng, n):
         nm = "Q%d" % i
         nf = rng.choice([1, 2, 3, 4, 5, 6, 8, 10])
         t = ("st", nm, [rand_field(rng, inner) for _ in range(nf)])
+        if i == 0:
+            # always present: arrays of rank two whose element changes width between the ABIs, and whose does not
+            t = ("st", nm, [("arr", 2, ("arr", 3, ("int", "long"))), ("int", "char"), ("arr", 3, ("arr", 2, ("int", "ushort"))),
+                            ("arr", 2, ("arr", 2, ("int", "ullong")))] + t[2][:2])
         decls.append(t)
         progs.append(t)
     return decls, progs
@@ -102,8 +112,8 @@ def ctype(t, guest):
 
 def refl_type(t):
     if t[0] == "arr":
-        p, _ = ctype(t[2], False)
-        return "%s[%d]" % (p, t[1])
+        p, sfx = ctype(t, False)
+        return p + sfx
     return ctype(t, False)[0]
 
 
